@@ -7,58 +7,69 @@ use crate::verif_env::*;
 // ===========================================================================
 
 // @harness prop=C11 tier=quick expect=pass timeout=600
-// @units metadata::cuesheet::LeadOutNonCDDA::to_writer metadata::cuesheet::LeadOutNonCDDA::from_reader metadata::cuesheet::LeadOutCDDA::to_writer metadata::cuesheet::LeadOutCDDA::from_reader metadata::cuesheet::ISRC
-// @bound both lead-out track kinds: any 64-bit offset (CD-DA: any multiple of 588), both flag bits, no ISRC
+// @units metadata::cuesheet::LeadOutNonCDDA::to_writer metadata::cuesheet::LeadOutNonCDDA::from_reader metadata::cuesheet::ISRC
+// @bound non-CD-DA lead-out track: any 64-bit offset, both flag bits, no ISRC
 // @oracle reads back equal (offset, flags in the right order, ISRC); 36 bytes written
 #[kani::proof]
 #[kani::unwind(16)]
-fn c11_leadout_roundtrip() {
+fn c11_leadout_noncdda_roundtrip() {
     let non_audio: bool = kani::any();
     let pre_emphasis: bool = kani::any();
     let offset: u64 = kani::any();
-    {
-        let t = LeadOutNonCDDA {
-            offset,
-            number: LeadOut,
-            isrc: ISRC::None,
-            non_audio,
-            pre_emphasis,
-            index_points: (),
-        };
-        let mut q = TokFifo::<48>::new();
-        let w = q.build(&t);
-        assert!(w.is_ok() && !q.failed);
-        std::mem::forget(w);
-        assert!(q.wpos == 36 * 8);
-        let back: Result<LeadOutNonCDDA, Error> = q.parse();
-        assert!(back.is_ok());
-        let back = back.unwrap();
-        assert!(q.drained());
-        assert!(back.offset == offset && back.non_audio == non_audio && back.pre_emphasis == pre_emphasis);
-        assert!(matches!(back.isrc, ISRC::None));
-    }
-    {
-        let sectors: u64 = kani::any();
-        kani::assume(sectors <= u64::MAX / 588);
-        let t = LeadOutCDDA {
-            offset: CDDAOffset { offset: sectors * 588 },
-            number: LeadOut,
-            isrc: ISRC::None,
-            non_audio,
-            pre_emphasis,
-            index_points: (),
-        };
-        let mut q = TokFifo::<48>::new();
-        let w = q.build(&t);
-        assert!(w.is_ok() && !q.failed);
-        std::mem::forget(w);
-        assert!(q.wpos == 36 * 8);
-        let back: Result<LeadOutCDDA, Error> = q.parse();
-        assert!(back.is_ok());
-        let back = back.unwrap();
-        assert!(q.drained());
-        assert!(back.offset.offset == sectors * 588 && back.non_audio == non_audio && back.pre_emphasis == pre_emphasis);
-    }
+    let t = LeadOutNonCDDA {
+        offset,
+        number: LeadOut,
+        isrc: ISRC::None,
+        non_audio,
+        pre_emphasis,
+        index_points: (),
+    };
+    let mut q = TokFifo::<48>::new();
+    let w = q.build(&t);
+    assert!(w.is_ok() && !q.failed);
+    std::mem::forget(w);
+    assert!(q.wpos == 36 * 8);
+    let back: Result<LeadOutNonCDDA, Error> = q.parse();
+    assert!(back.is_ok());
+    let back = back.unwrap();
+    assert!(q.drained());
+    assert!(back.offset == offset);
+    assert!(back.non_audio == non_audio);
+    assert!(back.pre_emphasis == pre_emphasis);
+    assert!(matches!(back.isrc, ISRC::None));
+}
+
+// @harness prop=C11 tier=quick expect=pass timeout=600
+// @units metadata::cuesheet::LeadOutCDDA::to_writer metadata::cuesheet::LeadOutCDDA::from_reader metadata::cuesheet::CDDAOffset
+// @bound CD-DA lead-out track: offset any multiple of 588 below 2^40, both flag bits, no ISRC
+// @oracle reads back equal; 36 bytes written
+#[kani::proof]
+#[kani::unwind(16)]
+fn c11_leadout_cdda_roundtrip() {
+    let non_audio: bool = kani::any();
+    let pre_emphasis: bool = kani::any();
+    let sectors: u32 = kani::any();
+    let offset = u64::from(sectors) * 588;
+    let t = LeadOutCDDA {
+        offset: CDDAOffset { offset },
+        number: LeadOut,
+        isrc: ISRC::None,
+        non_audio,
+        pre_emphasis,
+        index_points: (),
+    };
+    let mut q = TokFifo::<48>::new();
+    let w = q.build(&t);
+    assert!(w.is_ok() && !q.failed);
+    std::mem::forget(w);
+    assert!(q.wpos == 36 * 8);
+    let back: Result<LeadOutCDDA, Error> = q.parse();
+    assert!(back.is_ok());
+    let back = back.unwrap();
+    assert!(q.drained());
+    assert!(back.offset.offset == offset);
+    assert!(back.non_audio == non_audio);
+    assert!(back.pre_emphasis == pre_emphasis);
 }
 
 // @harness prop=C11 tier=quick expect=pass timeout=600
